@@ -713,13 +713,15 @@ def readelf_view(path, nsec):
         if idx == 0:
             v["secs"].append({"name": "", "type": "NULL", "addr": 0, "offset": 0, "size": 0, "entsize": 0, "link": 0, "info": 0, "addralign": 0})
             continue
-        # name type addr off size es [flg] lk inf al
-        name, typ, addr, off, size, es = f[0], f[1], int(f[2], 16), int(f[3], 16), int(f[4], 16), int(f[5], 16)
-        tail = f[6:]
-        if len(tail) == 4:
-            tail = tail[1:]
+        # name type addr off size es [flg] lk inf al -- parsed from the right (the name may be empty or odd)
+        al, inf, lk = int(f[-1]), int(f[-2]), int(f[-3])
+        k = -4
+        if not re.fullmatch(r"[0-9a-f]{2,}", f[k]):
+            k -= 1                                  # a flags column is present
+        es, size, off, addr, typ = int(f[k], 16), int(f[k - 1], 16), int(f[k - 2], 16), int(f[k - 3], 16), f[k - 4]
+        name = " ".join(f[:len(f) + k - 4])
         v["secs"].append({"name": name, "type": typ, "addr": addr, "offset": off, "size": size, "entsize": es,
-                          "link": int(tail[0]), "info": int(tail[1]), "addralign": int(tail[2])})
+                          "link": lk, "info": inf, "addralign": al})
     for m in re.finditer(r"^\s+LOAD\s+0x([0-9a-f]+)\s+0x([0-9a-f]+)\s+0x([0-9a-f]+)\s+0x([0-9a-f]+)\s+0x([0-9a-f]+)\s+([RWE ]{3})\s+0x([0-9a-f]+)", out, re.M):
         g = m.groups()
         fl = (4 if "R" in g[5] else 0) | (2 if "W" in g[5] else 0) | (1 if "E" in g[5] else 0)
@@ -775,7 +777,12 @@ SHT_NAME = {0: "NULL", 1: "PROGBITS", 2: "SYMTAB", 3: "STRTAB", 4: "RELA", 8: "N
 
 def compare_with_readelf(ctx, case, path, v):
     """validate the Lean reader against GNU readelf on this file (a difference is a defect of the MACHINERY -> disagreement)"""
-    r = readelf_view(path, len(v["secs"]))
+    try:
+        r = readelf_view(path, len(v["secs"]))
+    except Exception as e:  # noqa -- readelf printed something this parser does not understand
+        ctx.disagree("lean-reader-vs-readelf:unparsable-readelf-output", {"label": case.label, "request": model_request(case)},
+                     f"{type(e).__name__}: {e}"[:300], "")
+        return
     bits, en, mach, mtext = EXPECT[case.arch]
     diffs = []
     if (r["cls"], r["en"], r["etype"], r["entry"], r["shstrndx"]) != (v["cls"], v["en"], v["etype"], v["entry"], v["shstrndx"]):
